@@ -724,6 +724,7 @@ func c10Sources(c *vh.Ctx, g *vh.Gen) map[string][][]byte {
 		`@id("a") @if("kw") permit(principal == User::"a", action in [Action::"a", Action::"b"], resource is NS::Doc in Group::"g") when { principal has "a b" && context["a b"].c like "a\*b*" } unless { if 1 < 2 then [1, {a: -9223372036854775808}].isEmpty() else ip("::1").isInRange(ip("::/0")) };`,
 		`forbid(principal is User, action, resource,) when { context has a.b.c && !(-(-1) == 1) || decimal("1.0").lessThan(decimal("2.0")) && principal.hasTag("t") };`,
 		`permit(principal, action, resource);`,
+		vh.C10CommentPolicyTexts[0], vh.C10CommentPolicyTexts[1], // comments in every position (c10_runs.go has the exhaustive passes)
 	} {
 		add("policy-text", []byte(s))
 		var p cedar.Policy
@@ -828,6 +829,7 @@ func c10Sources(c *vh.Ctx, g *vh.Gen) map[string][][]byte {
 	for _, s := range c10SchemaTexts {
 		texts = append(texts, []byte(s))
 	}
+	texts = append(texts, []byte(vh.C10CommentSchemaTexts[0]), []byte(vh.C10CommentSchemaTexts[1]))
 	texts = append(texts, c10ReadRepoFiles("x/exp/schema/validate/testdata/*.cedarschema", c.N(5, 40), c.Rng)...)
 	for _, t := range texts {
 		add("schema-text", t)
@@ -1055,7 +1057,7 @@ func (r *c10Run) stream(e *c10Entry, sources [][]byte, nPrimary int) {
 }
 
 func runC10(c *vh.Ctx) {
-	c.Res.Rule = "per decoder entry point (25: Cedar policy text x5 incl. the streaming decoder, policy/policy-set JSON x3, value/record/set/entity-uid/decimal/datetime/duration/ip/pattern JSON, entity and entity-map JSON, EntityUID text+binary, request, decision/diagnostic, schema text, schema JSON, exptypes with schema): valid documents from the generators + real encoders; null/[]/{}/scalars/dropped/extra/duplicated/upper-cased members substituted at EVERY position of the generic JSON tree; token-level mutants and truncation at every token boundary; byte-level mutants, truncation at every byte, random bytes incl. invalid UTF-8 and NUL; 45 nesting forms at depth 10..10^5 (10^6 thorough) in a subprocess with a 64 MiB stack and a CPU budget, with binary search for the overflow depth; every accepted value goes through every encoder, NewPolicyFromAST, Authorize and Eval(PolicyToNode) on two environments; raw nodeJSON trees corresponded with the Lean WF model (op c10-raw). distinct = distinct (entry, input bytes); non-trivial = the input is a mutant / deep / random document, not a plain valid one"
+	c.Res.Rule = "per decoder entry point (25: Cedar policy text x5 incl. the streaming decoder, policy/policy-set JSON x3, value/record/set/entity-uid/decimal/datetime/duration/ip/pattern JSON, entity and entity-map JSON, EntityUID text+binary, request, decision/diagnostic, schema text, schema JSON, exptypes with schema): valid documents from the generators + real encoders; null/[]/{}/scalars/dropped/extra/duplicated/upper-cased members substituted at EVERY position of the generic JSON tree; token-level mutants and truncation at every token boundary; byte-level mutants, truncation at every byte, random bytes incl. invalid UTF-8 and NUL; 45 nesting forms at depth 10..10^5 (10^6 thorough) in a subprocess with a 64 MiB stack and a CPU budget, with binary search for the overflow depth; comment-rich policy and schema texts cut at EVERY byte offset (prefix, suffix, 1- and 2-byte deletions) + all strings of length <= 5 over {/,*,space,newline,a,;} alone and after an unfinished document, through all 5 policy-text and the schema-text entry points; long runs (N = 10^3..10^6 consecutive line / block comments, blank lines, annotations, policies, conditions, set elements, record attributes, declarations, namespaces; single identifiers / strings / integers / comments of N bytes) in the same subprocess worker: linear input must neither overflow the 64 MiB stack nor exceed 25x the linear CPU budget; every accepted value goes through every encoder, NewPolicyFromAST, Authorize and Eval(PolicyToNode) on two environments; raw nodeJSON trees corresponded with the Lean WF model (op c10-raw). distinct = distinct (entry, input bytes); non-trivial = the input is a mutant / deep / random document, not a plain valid one"
 	if c.Replay != "" {
 		if c10Replay(c) {
 			return
@@ -1100,6 +1102,9 @@ func runC10(c *vh.Ctx) {
 			}
 			r.stream(e, ss, nPrimary)
 		}
+		tc := time.Now()
+		r.c10CommentPasses()
+		c.Res.Notes = append(c.Res.Notes, fmt.Sprintf("comment passes took %.1fs", time.Since(tc).Seconds()))
 		tStreams := time.Since(c.Start)
 		c10Correspond(c, r)
 		c.Res.Notes = append(c.Res.Notes, fmt.Sprintf("in-process streams done after %.1fs, correspondence after %.1fs", tStreams.Seconds(), time.Since(c.Start).Seconds()))
